@@ -64,7 +64,7 @@ Definition check_op (c : case) (o : op) (before : snap) (r : opres) : bool :=
   | _ => non_increasing prios && none_starved c answered (sn_subs (o_snap r))
   end.
 
-Definition empty_snap : snap := mk_snap [] [] [].
+Definition empty_snap : snap := mk_snap [] [] [] [].
 
 Fixpoint check_trace (c : case) (ops : list op) (before : snap) (tr : list opres) : bool :=
   match tr, ops with
